@@ -155,20 +155,25 @@ def c_dstrat(c, reg_ids):
 TAGS = {'': 0, 'a': 1, 'b': 2}
 
 
+def c_leaf_term(c, reg_ids, lab):
+    """Coq term of type Core.Model.leaf for a leaf command"""
+    acq = copt((c['q'][0], TAGS[c.get('tag', '')]), lambda v: f"({cz(v[0])}, {cz(v[1])})") if c['cls'] == 'DispersiveMeasure' else 'None'
+    return (f"(mk_leaf {cz(lab)} {cz(CLS_ID[c['cls']])} {clist([cz(q) for q in c['q']])} QubitChannel_{c.get('ch') or 'ALL'} "
+            f"{c_dstrat(c, reg_ids)} {acq})")
+
+
 def c_prog(prog, leafinfo, reg_ids, counter):
-    """Coq term of type `list cmd`; leafinfo = channels reported by the implementation at construction, in pre-order."""
+    """Coq term of type `list cmd`; leafinfo (optional) = classes reported by the implementation at construction, in pre-order."""
     items = []
     for c in prog:
         if c['t'] == 'sub':
             items.append(f"(CSub {cz(c['reps'])} {c_prog(c['body'], leafinfo, reg_ids, counter)})")
             continue
-        info = leafinfo[counter[0]]
         lab = counter[0]
         counter[0] += 1
-        assert info['cls'] == c['cls']
-        acq = copt((c['q'][0], TAGS[c.get('tag', '')]), lambda v: f"({cz(v[0])}, {cz(v[1])})") if c['cls'] == 'DispersiveMeasure' else 'None'
-        leaf = (f"(mk_leaf {cz(lab)} {cz(CLS_ID[c['cls']])} {clist([cz(q) for q in c['q']])} QubitChannel_{c.get('ch') or 'ALL'} "
-                f"{c_dstrat(c, reg_ids)} {acq})")
+        if leafinfo is not None:
+            assert leafinfo[lab]['cls'] == c['cls']
+        leaf = c_leaf_term(c, reg_ids, lab)
         r = c.get('rel')
         if r is None:
             items.append(f"(CAdd {leaf} None)")
